@@ -1,6 +1,6 @@
 (* C13 - Restricted storages expose the same components without changing membership. *)
 From SV Require Import Base.ListX Store.Masked World.Env World.Join World.JoinProps World.JoinAbs World.JoinRefine
-  World.JoinAbsProps World.EnvSim World.JoinEvents.
+  World.JoinAbsProps World.EnvSim World.JoinEvents World.JoinEventStream.
 From SV Require Import Store.StoreInv.
 
 (* a restricted view is a member exactly where the storage is *)
@@ -78,6 +78,18 @@ Theorem C13_reading_emits_nothing : forall e sid i ms m, NM.find sid (se_stores 
   NS.mem i (ms_mask ms) = true -> forall s, env_chan (fst (env_jact e sid (JRead i))) s = env_chan e s.
 Proof. exact reading_emits_nothing. Qed.
 
+(* the whole join: for every tuple of members, every kind of join and every storage s, what the join appends to the
+   channel of s is a function of the rows it delivered (most recent first): per delivered item of a restricted view one
+   Modified when the caller fetched it mutably, one Modified per mutable other-entity lookup that found something (on the
+   wrapper that reports every mutable access; the dereference-tracking wrapper reports none for an access nothing is
+   written through), the same for plain mutable members, one Removed per drained item - and nothing else; all of it nothing
+   when s is not tracked or its emission is switched off.  (A join that goes wrong - stuck - is outside the statement;
+   joins with registered members never are: C06.) *)
+Theorem C13_events_of_a_whole_join : forall e av eids hs k ms s, TInv e ->
+  cx_stuck (se_cx (fst (env_join e av eids hs k ms))) = false ->
+  env_chan (fst (env_join e av eids hs k ms)) s = jout_evs s (tag e s) hs ms (snd (env_join e av eids hs k ms)) ++ env_chan e s.
+Proof. exact join_event_stream. Qed.
+
 (* non-vacuity: a tracked storage, only the odd indices fetched mutably (Modified 1, Modified 5; nothing
    for index 2), lookups of a live handle (through get_other_mut: Modified 1 each time on this wrapper)
    and of a dead one *)
@@ -99,6 +111,20 @@ Example C13_nonvacuous :
   end.
 Proof. vm_compute. repeat split; reflexivity. Qed.
 
+Example C13_stream_nonvacuous :
+  let e0 := env_register (env_init false) 6 in
+  let hs := pv_push (pv_push (pv_push pv_empty (1, 1%Z)) (2, 1%Z)) (5, 1%Z) in
+  let av := {| av_alive := fun e => negb (N.eqb (fst e) 5); av_cur_gen := fun _ => 1%Z; av_err_gen := fun _ => 1%Z |} in
+  let av1 := {| av_alive := fun _ => true; av_cur_gen := fun _ => 1%Z; av_err_gen := fun _ => 1%Z |} in
+  let ins e h v := fst (env_sop e av1 hs (SInsert 6 h v)) in
+  let e := ins (ins (ins e0 0%nat (10, 1%Z)) 1%nat (11, 2%Z)) 2%nat (12, 3%Z) in
+  let ms := [MRestrict 6 1 2 1 7%Z [0%nat; 2%nat]] in
+  let r := env_join e av NS.empty hs (JLend None) ms in
+  cx_stuck (se_cx (fst r)) = false /\
+  jout_evs 6 (tag e 6) hs ms (snd r) = [EModified 1; EModified 5; EModified 1; EModified 1; EModified 1] /\
+  jout_evs 6 (Some (WFlagged, false)) hs ms (snd r) = [] /\ jout_evs 7 (tag e 7) hs ms (snd r) = [].
+Proof. vm_compute. repeat split; reflexivity. Qed.
+
 Print Assumptions C13_visits_the_storages_members.
 Print Assumptions C13_item_reads_its_own_index.
 Print Assumptions C13_direct_read_is_the_same.
@@ -110,3 +136,4 @@ Print Assumptions C13_read_only_views_change_nothing.
 Print Assumptions C13_join_refines_the_join_on_maps.
 Print Assumptions C13_event_only_for_items_fetched_mutably.
 Print Assumptions C13_reading_emits_nothing.
+Print Assumptions C13_events_of_a_whole_join.
